@@ -24,7 +24,7 @@ func init() {
 	register("C12", checkC12)
 	describe("C12", Meta{
 		Technique: "abstract interpretation of the allocator's server loop and of every client function (reply-exactly-once / request-answer pairing, path-sensitive in constant boolean flags), plus dominance of joins over exit requests on the launchers' SSA control-flow graphs",
-		Claim:     "Decides the structural termination clauses of C12: the variable allocator answers every request exactly once on every path that continues its loop (or panics/exits), every client pairs each request with one answer, launchers join a goroutine before telling the goroutine it still sends to to exit, and every compiler goroutine has an exit that is requested on all normal paths. A goroutine launched by a compiler goroutine that sends to another one's channel is joined by its parent before the parent reports completion (nested JOINORDER), and a helper that answers on the allocator's behalf sends the same number of answers on every path. Necessary conditions for 'compilation always terminates'; compiler correctness (emitted code vs. Go semantics) is not decided.",
+		Claim:     "Decides the structural termination clauses of C12: the variable allocator answers every request exactly once on every path that continues its loop (or panics/exits), every client pairs each request with one answer, launchers join a goroutine before telling the goroutine it still sends to to exit, and every compiler goroutine has an exit that is requested on all normal paths. A goroutine launched by a compiler goroutine that sends to another one's channel is joined by its parent before the parent reports completion (nested JOINORDER), and a helper that answers on the allocator's behalf sends the same number of answers on every path. CELLLIFE: after a client has released a cell (REQ_REMOVE) it does not read the variable holding it, nor a local list into which it copied it, again — emitted code would use a register the allocator may already have handed to the next expression. Necessary conditions for 'compilation always terminates'; compiler correctness (emitted code vs. Go semantics) is not decided.",
 		Note:      "Channels are unbuffered (checked: make(chan T) without capacity at the launch sites). Server loops and their request/response channels are a table in the checker confirmed by reading (Var_assigner: req, resp); a server loop that disappears is reported, not skipped. Paths are distinguished at switch-case granularity.",
 		DesignRef: "DESIGN.md §2 C12",
 	})
@@ -49,6 +49,7 @@ func checkC12(r *core.Run) {
 	}
 	c12ReplyOnce(r, prog)
 	c12ClientPairing(r, prog)
+	c12CellLife(r, prog)
 	chanJoinOrder(r, prog, "C12", []string{"pkg/bondgo", "cmd/bondgo"})
 }
 
@@ -855,4 +856,275 @@ func helperSendCount(prog *core.Program, pk *packages.Package, call *ast.CallExp
 		return 0, "" // never returns
 	}
 	return k, ""
+}
+
+
+// c12CellLife (C12/CELLLIFE): typestate of an allocator cell in the compiler's clients. After a client
+// has sent VarReq{REQ_REMOVE, _, C} the register or memory cell C is free and the next Expr_eval may be
+// given the same cell; code emitted from C afterwards reads whatever was computed last. So, after the
+// release statement, (1) the variable C is rooted at may not be read again before it is reassigned
+// (within the statements that follow it, up to the loop iteration in which the variable is declared), and
+// (2) a slice into which C's value was copied earlier in the same loop (`X[i] = C`) may not be read after
+// that loop — all of its elements have been released by then.
+func c12CellLife(r *core.Run, prog *core.Program) {
+	pk := prog.Pkg("pkg/bondgo")
+	if pk == nil {
+		return
+	}
+	info := pk.TypesInfo
+	var removeConst types.Object
+	if o := pk.Types.Scope().Lookup("REQ_REMOVE"); o != nil {
+		removeConst = o
+	}
+	if removeConst == nil {
+		r.Undecided("C12/CELLLIFE", "C12/CELLLIFE:const", "", "REQ_REMOVE not found")
+		return
+	}
+	rootIdent := func(e ast.Expr) *ast.Ident {
+		for {
+			switch x := ast.Unparen(e).(type) {
+			case *ast.Ident:
+				return x
+			case *ast.IndexExpr:
+				e = x.X
+			case *ast.SelectorExpr:
+				e = x.X
+			case *ast.StarExpr:
+				e = x.X
+			default:
+				return nil
+			}
+		}
+	}
+	nSites := 0
+	core.FuncDecls(pk, func(_ *ast.File, fd *ast.FuncDecl) {
+		// parent map
+		parents := map[ast.Node]ast.Node{}
+		var stack []ast.Node
+		ast.Inspect(fd.Body, func(n ast.Node) bool {
+			if n == nil {
+				stack = stack[:len(stack)-1]
+				return true
+			}
+			if len(stack) > 0 {
+				parents[n] = stack[len(stack)-1]
+			}
+			stack = append(stack, n)
+			return true
+		})
+		// reads of object o in node n, not counting whole assignments to it; stops at a whole reassignment at statement level
+		readsIn := func(stmts []ast.Stmt, o types.Object) (token.Pos, bool) {
+			for _, st := range stmts {
+				if as, ok := st.(*ast.AssignStmt); ok {
+					// whole reassignment kills (after evaluating the right-hand side)
+					for _, rh := range as.Rhs {
+						var p token.Pos
+						ast.Inspect(rh, func(m ast.Node) bool {
+							if id, ok := m.(*ast.Ident); ok && info.ObjectOf(id) == o && !p.IsValid() {
+								p = id.Pos()
+							}
+							return true
+						})
+						if p.IsValid() {
+							return p, true
+						}
+					}
+					killed := false
+					for _, l := range as.Lhs {
+						if id, ok := l.(*ast.Ident); ok && info.ObjectOf(id) == o {
+							killed = true
+						}
+					}
+					if killed {
+						return token.NoPos, false
+					}
+				}
+				var p token.Pos
+				ast.Inspect(st, func(m ast.Node) bool {
+					if as, ok := m.(*ast.AssignStmt); ok {
+						for _, l := range as.Lhs {
+							if id, ok := l.(*ast.Ident); ok && info.ObjectOf(id) == o {
+								// visit only the right-hand sides
+								for _, rh := range as.Rhs {
+									ast.Inspect(rh, func(k ast.Node) bool {
+										if id, ok := k.(*ast.Ident); ok && info.ObjectOf(id) == o && !p.IsValid() {
+											p = id.Pos()
+										}
+										return true
+									})
+								}
+								return false
+							}
+						}
+					}
+					if id, ok := m.(*ast.Ident); ok && info.ObjectOf(id) == o && !p.IsValid() {
+						p = id.Pos()
+					}
+					return true
+				})
+				if p.IsValid() {
+					return p, true
+				}
+			}
+			return token.NoPos, false
+		}
+		following := func(st ast.Stmt, stopAt ast.Node) [][]ast.Stmt {
+			// statement lists that execute after st, innermost first, up to (excluding) the block stopAt's parent
+			var out [][]ast.Stmt
+			var cur ast.Node = st
+			for cur != nil && cur != stopAt {
+				par := parents[cur]
+				var list []ast.Stmt
+				switch b := par.(type) {
+				case *ast.BlockStmt:
+					switch parents[par].(type) {
+					case *ast.SwitchStmt, *ast.TypeSwitchStmt, *ast.SelectStmt:
+						// the other clauses of a switch do not run after this one
+					default:
+						list = b.List
+					}
+				case *ast.CaseClause:
+					list = b.Body
+				case *ast.CommClause:
+					list = b.Body
+				}
+				if list != nil {
+					for i, s2 := range list {
+						if s2 == cur && i+1 < len(list) {
+							out = append(out, list[i+1:])
+						}
+					}
+				}
+				cur = par
+			}
+			return out
+		}
+		k := 0
+		ast.Inspect(fd.Body, func(n ast.Node) bool {
+			send, ok := n.(*ast.SendStmt)
+			if !ok {
+				return true
+			}
+			cl, ok := ast.Unparen(send.Value).(*ast.CompositeLit)
+			if !ok || len(cl.Elts) != 3 {
+				return true
+			}
+			first := cl.Elts[0]
+			if kv, ok := first.(*ast.KeyValueExpr); ok {
+				first = kv.Value
+			}
+			id0, ok := ast.Unparen(first).(*ast.Ident)
+			if !ok || info.ObjectOf(id0) != removeConst {
+				return true
+			}
+			cellE := cl.Elts[2]
+			if kv, ok := cellE.(*ast.KeyValueExpr); ok {
+				cellE = kv.Value
+			}
+			rid := rootIdent(cellE)
+			if rid == nil {
+				return true
+			}
+			v := info.ObjectOf(rid)
+			if v == nil {
+				return true
+			}
+			k++
+			nSites++
+			inst := fmt.Sprintf("C12/CELLLIFE:%s:release%d:%s", core.FuncKey(pk, fd), k, canonRangeExpr(info, cellE))
+			// the loop (if any) in whose body v is declared: uses in the next iteration see a new v
+			var declLoop ast.Node
+			for p := parents[ast.Node(send)]; p != nil; p = parents[p] {
+				switch l := p.(type) {
+				case *ast.ForStmt:
+					if l.Body.Pos() <= v.Pos() && v.Pos() <= l.Body.End() && declLoop == nil {
+						declLoop = l.Body
+					}
+				case *ast.RangeStmt:
+					if l.Pos() <= v.Pos() && v.Pos() <= l.End() && declLoop == nil {
+						declLoop = l.Body
+					}
+				}
+			}
+			// (1) reads of v after the release
+			var stmtOfSend ast.Stmt = send
+			bad, badWhat := token.NoPos, ""
+			for _, list := range following(stmtOfSend, declLoop) {
+				if p, found := readsIn(list, v); found {
+					bad, badWhat = p, "reads "+rid.Name+" again"
+					break
+				} else if !p.IsValid() {
+					// either killed or not mentioned in this list; a kill ends the search
+					killed := false
+					for _, st := range list {
+						if as, ok := st.(*ast.AssignStmt); ok {
+							for _, l := range as.Lhs {
+								if id, ok := l.(*ast.Ident); ok && info.ObjectOf(id) == v {
+									killed = true
+								}
+							}
+						}
+					}
+					if killed {
+						break
+					}
+				}
+			}
+			// (2) aliases: X[i] = <expr rooted at v> earlier in the innermost loop body; X read after that loop
+			if !bad.IsValid() {
+				var loop ast.Stmt
+				for p := parents[ast.Node(send)]; p != nil && loop == nil; p = parents[p] {
+					switch l := p.(type) {
+					case *ast.ForStmt:
+						loop = l
+					case *ast.RangeStmt:
+						loop = l
+					}
+				}
+				if loop != nil {
+					var aliases []types.Object
+					ast.Inspect(loop, func(m ast.Node) bool {
+						as, ok := m.(*ast.AssignStmt)
+						if !ok || as.Pos() > send.Pos() || len(as.Lhs) != len(as.Rhs) {
+							return true
+						}
+						for i, l := range as.Lhs {
+							ie, ok := ast.Unparen(l).(*ast.IndexExpr)
+							if !ok {
+								continue
+							}
+							if rr := rootIdent(as.Rhs[i]); rr != nil && info.ObjectOf(rr) == v {
+								// only a local slice/map indexed directly (a scratch list of cells); a store
+								// into a field of the compiler state (bg.Vars[name] = cell) hands the cell over
+								if xid, ok := ast.Unparen(ie.X).(*ast.Ident); ok {
+									if xo := info.ObjectOf(xid); xo != nil && xo != v {
+										aliases = append(aliases, xo)
+									}
+								}
+							}
+						}
+						return true
+					})
+					for _, xo := range aliases {
+						for _, list := range following(loop, nil) {
+							if p, found := readsIn(list, xo); found {
+								bad, badWhat = p, "reads "+xo.Name()+", which holds copies of the released cells,"
+								break
+							}
+						}
+						if bad.IsValid() {
+							break
+						}
+					}
+				}
+			}
+			if bad.IsValid() {
+				r.Violation("C12/CELLLIFE", inst, prog.Pos(bad), fmt.Sprintf("%s tells the allocator to free %s (REQ_REMOVE at %s) and then %s: the cell can be handed to the next expression in between, so the code emitted from it uses a register that holds another value (e.g. every store of `a, b = b, a` writes the last right-hand side)", core.FuncKey(pk, fd), types.ExprString(cellE), r.Rel(prog.Pos(send.Pos())), badWhat))
+			} else {
+				r.OK("C12/CELLLIFE", inst, prog.Pos(send.Pos()), "the released cell is not used again")
+			}
+			return true
+		})
+	})
+	r.Count("cell_release_sites", nSites)
 }
